@@ -63,7 +63,32 @@ class H7(H9):
             return PA.root(arg, atom[2], self.signs)
         if kind == 'sgn':
             return self.sgn(arg)
+        if kind == 'log':
+            return PA.log_nf(arg, self.signs)
+        if kind == 'exp':
+            return PA.exp_nf(arg, self.signs)
         return Rat.var(satom(kind, arg, *atom[2:]))
+
+    def atom1(self, name):
+        if name == 'log':
+            return lambda x: PA.log_nf(to_rat(x), self.signs)
+        if name == 'exp':
+            return lambda x: PA.exp_nf(to_rat(x), self.signs)
+        if name in ('isfinite', 'isnan', 'isinf'):
+            def fin(x):
+                if isinstance(x, Opaque):
+                    return {'isfinite': False, 'isnan': 'nan' in x.desc,
+                            'isinf': 'inf' in x.desc}[name]
+                return name == 'isfinite'
+            return fin
+        return H9.atom1(self, name)
+
+    def np_func(self, I, name):
+        if name == 'finfo':
+            # exact arithmetic: floating-point tolerances are zero
+            return lambda *a, **k: Rec('finfo', resolution=Rat.const(0),
+                                       eps=Rat.const(0), tiny=Rat.const(0))
+        return H9.np_func(self, I, name)
 
     def sgn(self, arg):
         if arg.is_zero():
@@ -312,6 +337,31 @@ def run_projection(model, build, entries, kind):
                              % j)
                 break
     return probs, ps, None
+
+
+def partials_at(H, I, f, dom, ps):
+    """[d f / d y_j (p)] with f's own value evaluated at y = p + t and
+    differentiated symbolically; kinks give free symbols `sfree<k>`."""
+    ts = ['t%d' % j for j in range(len(ps))]
+    H.infinitesimal = set(ts)
+    it = iter([pj + S(t) for pj, t in zip(ps, ts)])
+
+    def mk(space):
+        if isinstance(space, NPSpace):
+            return NPElem(space, [mk(q) for q in space.parts])
+        a = _np.empty(space.shape, dtype=object)
+        for idx in _np.ndindex(*space.shape):
+            a[idx] = next(it)
+        return NElem(space, NA(a, space.dt))
+    fy = PA.ired(to_rat(I.call(f, [mk(dom)], {})))
+    zero = {t: Rat.const(0) for t in ts}
+    out = []
+    H.nfree = 0
+    for t in ts:
+        G = mdiff.diff(fy, t, sgn=True)
+        out.append(PA.reduce_full(mdiff.deep_subs(G, zero, H.rebuild)))
+    H.infinitesimal = set()
+    return out, fy
 
 
 def run_one(model, build, entries):
